@@ -29,6 +29,10 @@ func VP_C10_text() {
 		{"($p = person, $p.name + $p.address.city + suffix)", []string{"person", "$p.name", "$p.address.city", "suffix"}, []string{"person", "suffix"}},
 		{"$row.total > limit ? $row.total : limit", []string{"$row.total", "limit"}, []string{"limit"}},
 		{"price * qty", []string{"price", "qty"}, []string{"price", "qty"}},
+		{"year + 1", []string{"year"}, []string{"year"}},
+		{"date.year > 2000 ? a : b", []string{"date.year", "a", "b"}, []string{"date.year", "a", "b"}},
+		{"[min, x.min, len]", []string{"min", "x.min", "len"}, []string{"min", "x.min", "len"}},
+		{"max(max, left.right)", []string{"max", "left.right"}, []string{"max", "left.right"}},
 	}
 	p := pool[vpChoice("f", len(pool))]
 	code, err := ParseSourceCode([]byte(p.text))
@@ -339,7 +343,7 @@ func VP_C10_fields() {
 	// fields and the called names gives the same result
 	full := func() map[string]interface{} {
 		return map[string]interface{}{
-			pool[0]: 4, pool[4]: 11, "a": map[string]interface{}{"b": map[string]interface{}{"c": 3}}, "b": 2, "$l": 6, "zz": 9, "unused": "u",
+			pool[0]: 4, pool[4]: 11, "a": map[string]interface{}{"b": map[string]interface{}{"c": 3}}, "b": 2, "$l": 6, "zz": 9, "unused": "u", "b.b": 77, "$l.b": 78, "a.b.c": 79, "a.b": 80,
 			"g":  func(x interface{}) (int, error) { return 7, nil },
 			"gv": func(xs ...interface{}) (int, error) { return len(xs), nil },
 			"o":  map[string]interface{}{"m": func(x interface{}) (int, error) { return 8, nil }},
